@@ -85,7 +85,28 @@ fn digest_mode(argv: &[String]) -> ! {
     std::process::exit(0)
 }
 
+/// More modules than the parse cache holds (ParseQuery has an LRU capacity of 128): a chain
+/// of 140 modules, each calling the previous one, so that types flow through all of them
+/// and syntax trees are evicted and re-parsed while answers must stay those of a fresh host.
+fn large_ws(r: &mut Rng) -> ModelWs {
+    let pkgs = vec![Pkg { root: "/ws/root".into(), name: "root".into(), is_local: true, deps: vec![] }];
+    let mut files = vec![FileEntry { id: 0, pkg: 0, path: "/ws/root/gleam.toml".into(), text: "name = \"root\"\n".into() }];
+    let n = 140 + r.below(8);
+    for i in 0..n {
+        let text = if i == 0 {
+            "pub fn f0(x) { x + 1 }\n\npub type T0 { T0(v: Int) }\n".to_string()
+        } else {
+            format!("import c{p}\n\npub fn f{i}(x) {{ c{p}.f{p}(x) }}\n\npub fn g{i}(y) {{ #(y, f{i}(1)) }}\n", p = i - 1)
+        };
+        files.push(FileEntry { id: 1 + i as u32, pkg: 0, path: format!("/ws/root/src/c{i}.gleam"), text });
+    }
+    ModelWs { pkgs, files }
+}
+
 fn initial_ws(r: &mut Rng) -> ModelWs {
+    if r.chance(1, 80) {
+        return large_ws(r);
+    }
     let cfg = GenCfg { modules: r.range(1, 4), max_items: r.range(2, 6), max_depth: r.range(1, 3), holes: false, non_core: true, trivia: if r.chance(1, 2) { Trivia::Wild } else { Trivia::Plain }, non_ascii: r.chance(1, 3) };
     let g = gen::generate(r, &cfg);
     // packages: root (local) always; with >= 2 modules a dependency package holding module 0
@@ -155,6 +176,11 @@ fn edit_text(r: &mut Rng, t: &str) -> (String, &'static str) {
 fn run_case(rep: &mut Report, journal: &mut Journal, case_seed: u64, nsteps: usize, per_file: usize, cross_process: bool, out_dir: &std::path::Path, shard: usize) {
     let mut r = Rng::new(case_seed);
     let mut ws = initial_ws(&mut r);
+    let large = ws.files.len() > 128;
+    let (nsteps, per_file) = if large { (nsteps.min(4), 1) } else { (nsteps, per_file) };
+    if large {
+        rep.count("workspaces_larger_than_the_parse_cache(>128 modules)", 1);
+    }
     let mut host = AnalysisHost::new();
     host.apply_change(ws.full_change());
     let mut history: Vec<String> = vec!["initial".into()];
